@@ -371,6 +371,8 @@ fn truncate_check(ft: FatType, m: usize, k: usize) {
     // no payload write; only the status byte may be written outside the table
     assert!(d.nw <= 1);
     if keep < m { assert!(fs_pending(&*fs).1.dirty()); }
+    // C12: a truncation that changes the file's size marks the volume dirty on the device, even when no cluster is freed
+    if off != size { assert!(fs_pending(&*fs).1.dirty() && d.nw == 1 && d.w_len[0] == 1 && d.w_first[0] & 1 == 1); }
     let (_, _, dirty) = editor_state(f.entry.as_ref().unwrap());
     if off != size { assert!(dirty); }
     kani::cover!(k == m - 1 || keep < m);
@@ -560,3 +562,43 @@ fault_file_case!(fault_file_seek12, FatType::Fat12, 3);
 fault_file_case!(fault_file_truncate16, FatType::Fat16, 4);
 fault_file_case!(fault_file_flush32, FatType::Fat32, 5);
 fault_file_case!(fault_file_extents16, FatType::Fat16, 6);
+
+/// C14/C09: flush, fault, flush again. A single device fault at ANY call position of `File::flush` may make that call
+/// fail, but it must not lose the pending entry: the retried flush (no further fault) succeeds, and once it has
+/// returned the new size is on the device at the entry's position, nothing is pending and the device was flushed
+/// after the last write. (A flush that gave up on the entry after a failed write would "succeed" here with the old
+/// size on the device.)
+fn flush_retry_check(ft: FatType, via_drop: bool) {
+    let fault_at: u32 = kani::any();
+    let g = geo(ft);
+    let mut inner = mk_dev(ft, 3);
+    inner.watch_addr = ENTRY_POS + 28; // least significant byte of the size field
+    inner.watch_val = 0xA5;
+    let dev = crate::verif_support::dev::Faulty::new(inner, fault_at, 120);
+    let fs = core::mem::ManuallyDrop::new(mk_fs_plain(dev, &g, any_clock(), false));
+    let mut f = core::mem::ManuallyDrop::new(mk_file(&*fs, 3, usize::MAX, 1536, 0));
+    f.entry.as_mut().unwrap().set_size(9);
+    let r1 = Write::flush(&mut *f);
+    let fired = fs.disk.borrow().fired;
+    if !fired { assert!(r1.is_ok()); }
+    if via_drop {
+        // the handle is dropped after the failed flush: the destructor is the retry
+        unsafe { core::mem::ManuallyDrop::drop(&mut f); }
+    } else {
+        let r2 = Write::flush(&mut *f);
+        if fired { assert!(r2.is_ok()); }
+        assert!(!editor_state(f.entry.as_ref().unwrap()).2);
+    }
+    let d = fs.disk.borrow();
+    assert!(!d.inner.oob);
+    assert!(d.inner.watch_val == 9);
+    assert!(d.inner.flushes >= 1 && d.inner.writes_at_last_flush == d.inner.total_writes);
+    kani::cover!(fired && r1.is_err() && fault_at >= 2);
+    kani::cover!(!fired);
+}
+#[kani::proof]
+#[kani::unwind(130)]
+fn flush_retry_after_fault16() { flush_retry_check(FatType::Fat16, false); }
+#[kani::proof]
+#[kani::unwind(130)]
+fn flush_then_drop_after_fault32() { flush_retry_check(FatType::Fat32, true); }
